@@ -78,7 +78,7 @@ def generate(rng, tier):
               'HHHHHHHHCHHHHHHHH', 'G', 'GHI', 'CCCC', 'HHHHHHHHHHHHHHHHHHHH']:
         cases.append({'kind': 'dssp', 'seq': s})
     if tier == 'thorough':
-        for n in range(0, 10):
+        for n in range(0, 9):
             for t in itertools.product('HGETC', repeat=n):
                 cases.append({'kind': 'dssp', 'seq': ''.join(t)})
     return cases
